@@ -7,7 +7,7 @@ All theorems are about `Ckks.stepR` / `Ckks.run` and the per-operation functions
 step with the real `poulpy_ckks` API.  A program is a list of API calls on a pool of ciphertexts;
 `run` stops at the first call that does not return `Ok` (the caller propagates errors).
 
-The model follows the tree with the repairs docs/fixes/01–07 applied.  What remains partial is stated
+The model follows the tree with the repairs docs/fixes/01–08 applied.  What remains partial is stated
 where it occurs (`never_panics_partial`: operands of a multiplication must hold a value).
 -/
 
@@ -355,15 +355,36 @@ example : addCstRnxAssign ⟨17, [], 53⟩ ⟨⟨30, 106⟩, 8⟩ ⟨50, 0⟩ tr
 
 /-! ## 6. observations recorded as theorems -/
 
-/-- on `InsufficientHomomorphicCapacity` the unary `_into` operations have already overwritten the
-destination's metadata with the source's: the state left behind by the error may violate the
-invariant (the statement only constrains `Ok` results; recorded in docs/C16.md) -/
-theorem err_leaves_source_meta (env : Env) (dst a : Ct) (extra : Nat) (e : Err) (s : Ct)
-    (h : shiftInto env dst a extra = .err e s) : s.md = a.md ∧ s.size = dst.size := by
-  simp only [shiftInto] at h
-  grind
+/-- an `Err` leaves the destination's metadata as they were (docs/fixes/08: the unary `_into` operations
+used to overwrite them with the source's before checking the budget) -/
+theorem err_leaves_destination (env : Env) (dst a : Ct) (extra : Nat) (e : Err) (s : Ct)
+    (h : shiftInto env dst a extra = .err e s) : s = dst :=
+  shiftInto_err env dst a s extra e h
 
-example : shiftInto env52 ⟨⟨0, 0⟩, 1⟩ ⟨⟨60, 10⟩, 4⟩ 0 = .err (.insufficient 10 18) ⟨⟨60, 10⟩, 1⟩ := by decide
+example : shiftInto env52 ⟨⟨0, 0⟩, 1⟩ ⟨⟨60, 10⟩, 4⟩ 0 = .err (.insufficient 10 18) ⟨⟨0, 0⟩, 1⟩ := by decide
+
+/-- every call that does not panic — `Ok` **or** `Err` — leaves all ciphertexts within their storage -/
+theorem invariant_step_err (env : Env) (pool pool' : Pool) (op : Op) (e : Err)
+    (hI : Inv env pool) (h : stepR env pool op = .err e pool') : Inv env pool' :=
+  stepR_err_inv env pool pool' op e hI h
+
+/-- the former witness: `div_pow2` into a destination that is too small fails and leaves it untouched -/
+example : stepR env52 [⟨⟨23, 237⟩, 5⟩, ⟨⟨0, 0⟩, 3⟩] (.divPow2 1 0 156) =
+    .err (.insufficient 237 260) [⟨⟨23, 237⟩, 5⟩, ⟨⟨0, 0⟩, 3⟩] := by decide
+
+/-- the invariant along the run of a caller that handles errors and goes on -/
+theorem invariant_run_through_errors (env : Env) (hw : WF env) (prog : List Op) (s s' : Pool)
+    (hI : Inv env s) (h : runC env s prog = .ok s') : Inv env s' :=
+  runC_inv env hw prog s s' hI h
+
+/-- … and such a run never panics either (same single hypothesis as `never_panics_partial`) -/
+theorem never_panics_through_errors_partial (env : Env) (hw : WF env) (prog : List Op) (s : Pool)
+    (hI : Inv env s) (hA : AlongC Initialised env s prog) : (runC env s prog).isPanic = false :=
+  runC_no_panic env hw prog s hI hA
+
+example : runC env52 [⟨⟨23, 237⟩, 5⟩, ⟨⟨0, 0⟩, 3⟩, ⟨⟨0, 0⟩, 3⟩]
+    [.divPow2 1 0 156, .compactCopy 2 1, .neg 1 0] =
+    .ok [⟨⟨23, 237⟩, 5⟩, ⟨⟨23, 133⟩, 3⟩, ⟨⟨0, 0⟩, 0⟩] := by decide
 
 /-- value-level bit algebra of ct × ct (docs/fixes/01): the convolution offset chosen by
 `get_mul_ct_params` plus the announced result budget equals the sum of the operand budgets — the
